@@ -302,7 +302,7 @@ theorem refineDir_u_preserves_surface (d : ℕ) (S : Shape K) (hS : SurfWF d S) 
     (`SurfSame`), whether or not the call completed.  `DirHyp S dir density tol` = clamped end and
     tolerance separation for direction `dir`, required only for the selected directions. -/
 theorem refineKnotvector_preserves_surface (d : ℕ) (S : Shape K) (hS : SurfWF d S) (dens : List ℕ) (tol : K)
-    (h0 : 0 ≤ tol)
+    (h0 : 0 ≤ tol) (_hlen : dens.length = S.pdim)
     (hd0 : dens.getD 0 0 ≠ 0 → DirHyp S 0 (dens.getD 0 0) tol)
     (hd1 : dens.getD 1 0 ≠ 0 → DirHyp S 1 (dens.getD 1 0) tol)
     (u v : K) (hu1 : fnOf (S.kv 0) (S.deg 0) ≤ u) (hu2 : u ≤ fnOf (S.kv 0) (S.size 0))
@@ -402,7 +402,7 @@ theorem refineDir_preserves_volume (d : ℕ) (S : Shape K) (hS : VolWF d S) (dir
     tolerance separation for direction `dir`) is required only for the selected directions, and is
     stated on the ORIGINAL object. -/
 theorem refineKnotvector_preserves_volume (d : ℕ) (S : Shape K) (hS : VolWF d S) (dens : List ℕ) (tol : K)
-    (h0 : 0 ≤ tol)
+    (h0 : 0 ≤ tol) (_hlen : dens.length = S.pdim)
     (hd : ∀ dir, dir < 3 → dens.getD dir 0 ≠ 0 → DirHyp S dir (dens.getD dir 0) tol)
     (u v w : K) (hu1 : fnOf (S.kv 0) (S.deg 0) ≤ u) (hu2 : u ≤ fnOf (S.kv 0) (S.size 0))
     (hv1 : fnOf (S.kv 1) (S.deg 1) ≤ v) (hv2 : v ≤ fnOf (S.kv 1) (S.size 1))
@@ -701,7 +701,7 @@ tolerance separation of the old knots and the bisection knots) and `DirHypA54` (
 /-- **`refine_knotvector` on a curve object (specification-level model) keeps every curve point**; the result is a
     well-formed curve object over the same domain, whether or not the call completed. -/
 theorem refineKnotvector_preserves_curve (d : ℕ) (S : Shape K) (hS : CurveObjWF d S) (dens : List ℕ) (tol : K)
-    (h0 : 0 ≤ tol) (hd : dens.getD 0 0 ≠ 0 → DirHyp S 0 (dens.getD 0 0) tol)
+    (h0 : 0 ≤ tol) (_hlen : dens.length = S.pdim) (hd : dens.getD 0 0 ≠ 0 → DirHyp S 0 (dens.getD 0 0) tol)
     (u : K) (hlo : fnOf (S.kv 0) (S.deg 0) ≤ u) (hhi : u ≤ fnOf (S.kv 0) (S.size 0)) (j : ℕ) :
     CurveObjWF d (refineKnotvector S dens tol).1 ∧
     (curveEval (refineKnotvector S dens tol).1 u).getD j 0 = (curveEval S u).getD j 0 :=
@@ -728,9 +728,15 @@ theorem refineDir_as_coded_eq_model_volume (d : ℕ) (S : Shape K) (hS : VolWF d
     refineDirCoded S dir density tol = refineDir S dir density tol :=
   refineDirCoded_volume d S density tol h0 hS hd dir hdir hyp ha
 
+/-! `_hlen : dens.length = S.pdim` in the nine object-level statements (`refineKnotvector_preserves_*`,
+`refineKnotvector_as_coded_eq_model_*`, `refine_as_coded_preserves_*`; statement audit 5, I2): the guard of
+`operations.refine_knotvector` on its density list – with another number of entries the code raises `GeomdlException`
+("The length of the param array …"), the ops `refc` / `ops … F` answer ERR; the model reads a missing entry as
+"direction not selected", so the hypothesis is not used by the proofs. -/
+
 /-- **`refine_knotvector` on a curve object through A5.4 as coded = the specification-level model** (object, flag). -/
 theorem refineKnotvector_as_coded_eq_model_curve (d : ℕ) (S : Shape K) (hS : CurveObjWF d S) (dens : List ℕ) (tol : K)
-    (h0 : 0 ≤ tol) (hd : dens.getD 0 0 ≠ 0 → DirHyp S 0 (dens.getD 0 0) tol ∧ DirHypA54 S 0) :
+    (h0 : 0 ≤ tol) (_hlen : dens.length = S.pdim) (hd : dens.getD 0 0 ≠ 0 → DirHyp S 0 (dens.getD 0 0) tol ∧ DirHypA54 S 0) :
     refineKnotvectorCoded S dens tol = refineKnotvector S dens tol :=
   refineKnotvectorCoded_curve d S hS.degs hS.size hS.wf dens tol h0 hd
 
@@ -738,14 +744,14 @@ theorem refineKnotvector_as_coded_eq_model_curve (d : ℕ) (S : Shape K) (hS : C
     any subset of the two directions, any densities; each direction is applied to the object as the earlier one
     left it, the hypotheses are on the original object and only for the selected directions. -/
 theorem refineKnotvector_as_coded_eq_model_surface (d : ℕ) (S : Shape K) (hS : SurfWF d S) (dens : List ℕ) (tol : K)
-    (h0 : 0 ≤ tol)
+    (h0 : 0 ≤ tol) (_hlen : dens.length = S.pdim)
     (hd : ∀ dir, dir < 2 → dens.getD dir 0 ≠ 0 → DirHyp S dir (dens.getD dir 0) tol ∧ DirHypA54 S dir) :
     refineKnotvectorCoded S dens tol = refineKnotvector S dens tol :=
   refineKnotvectorCoded_surface d S hS dens tol h0 hd
 
 /-- **`refine_knotvector` on a volume through A5.4 on rows as coded = the specification-level model.** -/
 theorem refineKnotvector_as_coded_eq_model_volume (d : ℕ) (S : Shape K) (hS : VolWF d S) (hd0 : 0 < d) (dens : List ℕ)
-    (tol : K) (h0 : 0 ≤ tol)
+    (tol : K) (h0 : 0 ≤ tol) (_hlen : dens.length = S.pdim)
     (hd : ∀ dir, dir < 3 → dens.getD dir 0 ≠ 0 → DirHyp S dir (dens.getD dir 0) tol ∧ DirHypA54 S dir) :
     refineKnotvectorCoded S dens tol = refineKnotvector S dens tol :=
   refineKnotvectorCoded_volume d S hS hd0 dens tol h0 hd
@@ -753,31 +759,31 @@ theorem refineKnotvector_as_coded_eq_model_volume (d : ℕ) (S : Shape K) (hS : 
 /-- **Refinement through the loops as coded never changes the shape, curves**: the object `refine_knotvector`
     computes with A5.4 as coded is a well-formed curve object and every point of the closed domain is unchanged. -/
 theorem refine_as_coded_preserves_curve (d : ℕ) (S : Shape K) (hS : CurveObjWF d S) (dens : List ℕ) (tol : K)
-    (h0 : 0 ≤ tol) (hd : dens.getD 0 0 ≠ 0 → DirHyp S 0 (dens.getD 0 0) tol ∧ DirHypA54 S 0)
+    (h0 : 0 ≤ tol) (_hlen : dens.length = S.pdim) (hd : dens.getD 0 0 ≠ 0 → DirHyp S 0 (dens.getD 0 0) tol ∧ DirHypA54 S 0)
     (u : K) (hlo : fnOf (S.kv 0) (S.deg 0) ≤ u) (hhi : u ≤ fnOf (S.kv 0) (S.size 0)) (j : ℕ) :
     CurveObjWF d (refineKnotvectorCoded S dens tol).1 ∧
     (curveEval (refineKnotvectorCoded S dens tol).1 u).getD j 0 = (curveEval S u).getD j 0 := by
   rw [refineKnotvectorCoded_curve d S hS.degs hS.size hS.wf dens tol h0 hd]
-  exact refineKnotvector_preserves_curve d S hS dens tol h0 (fun h => (hd h).1) u hlo hhi j
+  exact refineKnotvector_preserves_curve d S hS dens tol h0 _hlen (fun h => (hd h).1) u hlo hhi j
 
 /-- **Refinement through the loops as coded never changes the shape, surfaces**: any subset of the two directions,
     any densities; well-formed result, every surface point of the domain unchanged. -/
 theorem refine_as_coded_preserves_surface (d : ℕ) (S : Shape K) (hS : SurfWF d S) (dens : List ℕ) (tol : K)
-    (h0 : 0 ≤ tol)
+    (h0 : 0 ≤ tol) (_hlen : dens.length = S.pdim)
     (hd : ∀ dir, dir < 2 → dens.getD dir 0 ≠ 0 → DirHyp S dir (dens.getD dir 0) tol ∧ DirHypA54 S dir)
     (u v : K) (hu1 : fnOf (S.kv 0) (S.deg 0) ≤ u) (hu2 : u ≤ fnOf (S.kv 0) (S.size 0))
     (hv1 : fnOf (S.kv 1) (S.deg 1) ≤ v) (hv2 : v ≤ fnOf (S.kv 1) (S.size 1)) (j : ℕ) :
     SurfWF d (refineKnotvectorCoded S dens tol).1 ∧
     (surfEval (refineKnotvectorCoded S dens tol).1 u v).getD j 0 = (surfEval S u v).getD j 0 := by
   rw [refineKnotvectorCoded_surface d S hS dens tol h0 hd]
-  exact refineKnotvector_preserves_surface d S hS dens tol h0 (fun h => (hd 0 (by omega) h).1)
+  exact refineKnotvector_preserves_surface d S hS dens tol h0 _hlen (fun h => (hd 0 (by omega) h).1)
     (fun h => (hd 1 (by omega) h).1) u v hu1 hu2 hv1 hv2 j
 
 /-- **Refinement through the loops as coded never changes the shape, volumes**: any subset of the three directions,
     any densities, every direction through gather / A5.4 on rows / scatter; well-formed result with the same degrees,
     every volume point of the domain unchanged. -/
 theorem refine_as_coded_preserves_volume (d : ℕ) (S : Shape K) (hS : VolWF d S) (hd0 : 0 < d) (dens : List ℕ) (tol : K)
-    (h0 : 0 ≤ tol)
+    (h0 : 0 ≤ tol) (_hlen : dens.length = S.pdim)
     (hd : ∀ dir, dir < 3 → dens.getD dir 0 ≠ 0 → DirHyp S dir (dens.getD dir 0) tol ∧ DirHypA54 S dir)
     (u v w : K) (hu1 : fnOf (S.kv 0) (S.deg 0) ≤ u) (hu2 : u ≤ fnOf (S.kv 0) (S.size 0))
     (hv1 : fnOf (S.kv 1) (S.deg 1) ≤ v) (hv2 : v ≤ fnOf (S.kv 1) (S.size 1))
@@ -785,7 +791,7 @@ theorem refine_as_coded_preserves_volume (d : ℕ) (S : Shape K) (hS : VolWF d S
     VolWF d (refineKnotvectorCoded S dens tol).1 ∧ (refineKnotvectorCoded S dens tol).1.degs = S.degs ∧
     (volEval (refineKnotvectorCoded S dens tol).1 u v w).getD j 0 = (volEval S u v w).getD j 0 := by
   rw [refineKnotvectorCoded_volume d S hS hd0 dens tol h0 hd]
-  have r := refineKnotvector_preserves_volume d S hS dens tol h0 (fun dir hdir h => (hd dir hdir h).1)
+  have r := refineKnotvector_preserves_volume d S hS dens tol h0 _hlen (fun dir hdir h => (hd dir hdir h).1)
     u v w hu1 hu2 hv1 hv2 hw1 hw2 j
   exact ⟨r.1, r.2.1, r.2.2.2⟩
 
@@ -826,7 +832,7 @@ example : refineKnotvectorCoded exSurf [2, 1] (1/10000000) = refineKnotvector ex
       net := by intro pt hpt; simp [exSurf] at hpt; rcases hpt with h | h | h | h | h | h | h | h <;> simp [h],
       dir0 := ⟨mono_of_pairwise _ (by decide +kernel), rfl, by decide, by decide +kernel⟩,
       dir1 := ⟨mono_of_pairwise _ (by decide +kernel), rfl, by decide, by decide +kernel⟩ }
-    [2, 1] _ (by norm_num)
+    [2, 1] _ (by norm_num) rfl
     (fun dir hdir _ => by
       rcases (by omega : dir = 0 ∨ dir = 1) with rfl | rfl
       · exact ⟨⟨clampedEnd_of_drop _ _ (by decide) (by decide +kernel), by unfold SepBy; decide +kernel⟩, by unfold DirHypA54; decide +kernel⟩
